@@ -262,6 +262,45 @@ pub fn gen_v5(full: bool, f: &mut dyn FnMut(v5::codec::Encoded, Option<Bytes>)) 
         a.properties = vec![(long_str(n), bs("v"))];
         f(c::Encoded::Packet(c::Packet::PublishReceived(a)), None);
     }
+    // property sections whose length sits on a variable-byte-integer boundary (127/128, 16383/16384 bytes):
+    // one string property of every length that puts the section within a few bytes of the boundary
+    let sweep: Vec<usize> = (118..=132).chain(16_372..=16_388).collect();
+    for n in sweep {
+        if !full && n > 1000 && n % 2 == 1 {
+            continue;
+        }
+        let mut a = ack_with(128, 0, 0);
+        a.reason_string = Some(long_str(n));
+        f(c::Encoded::Packet(c::Packet::PublishAck(a.clone())), None);
+        f(c::Encoded::Packet(c::Packet::PublishReceived(a)), None);
+        let mut a2 = ack2_with(146, 0, 0);
+        a2.reason_string = Some(long_str(n));
+        f(c::Encoded::Packet(c::Packet::PublishRelease(a2.clone())), None);
+        f(c::Encoded::Packet(c::Packet::PublishComplete(a2)), None);
+        f(c::Encoded::Packet(c::Packet::Disconnect(c::Disconnect {
+            reason_code: c::DisconnectReasonCode::UnspecifiedError,
+            session_expiry_interval_secs: None,
+            server_reference: None,
+            reason_string: Some(long_str(n)),
+            user_properties: vec![],
+        })), None);
+        f(c::Encoded::Packet(c::Packet::Auth(c::Auth {
+            reason_code: c::AuthReasonCode::ContinueAuth,
+            auth_method: None,
+            auth_data: None,
+            reason_string: Some(long_str(n)),
+            user_properties: vec![],
+        })), None);
+        let mut ca = connack_with(0, 0, 0);
+        ca.reason_string = Some(long_str(n));
+        f(c::Encoded::Packet(c::Packet::ConnectAck(Box::new(ca))), None);
+        let mut p = publish_with(0, QoS::AtLeastOnce, false, false, 3, bs("t"));
+        p.properties.content_type = Some(long_str(n));
+        f(c::Encoded::Publish(p, Some(by(b"xyz"))), Some(by(b"xyz")));
+        let mut p = publish_with(0, QoS::AtMostOnce, false, false, 0, bs("t"));
+        p.properties.user_properties = vec![(long_str(n), bs(""))];
+        f(c::Encoded::Publish(p, Some(by(b""))), Some(by(b"")));
+    }
     // SUBSCRIBE
     for id in [0u32, 1, 127, 128, 16383, 16384, 2_097_151, 2_097_152, 268_435_455] {
         for nup in 0..2 {
